@@ -104,7 +104,6 @@ def per_element(ctx, rule, inst, b, loop, marker_bbs, desc, where=""):
 
 def check(ctx):
     prog = ctx.prog
-    ctx.bodies.add("libp2p_request_response")
     # ================================================================= on_connection_handler_event
     h = ctx.body(RR, r"<Behaviour as libp2p_swarm::NetworkBehaviour>::on_connection_handler_event$")
     rets = h.return_blocks()
@@ -479,7 +478,6 @@ def check(ctx):
                 got = lib.count_range(hp, some, hrets, lib.bbs(rq)) if some else None
                 ok = len(mine) == 1 and "ConnectionHandlerEvent::OutboundSubstreamRequest{" in render(mine[0][1])
                 ctx.ob("handler-poll", "an outbound request moves to requested_outbound exactly when its substream is requested", ok and got == (1, 1), s.loc(), "requested_outbound.push_back(request) on the Some edge: %s" % (got,))
-    rq_all = [x for x in prog.bodies(RR) for _ in [0] if False]
     req = [(s, e) for s, e in results if (outcome_of(e, HEV) or (None,))[0] == "Request"]
     ctx.ob("handler-poll", "an inbound request is reported with the id and sender received from its worker", len(req) == 1 and
            re.search(r"request_id: .*inbound_receiver, cx\)@Ready\.0@Some\.0\.0, request: .*@Some\.0\.1, sender: .*@Some\.0\.2\}", render(req[0][1])) is not None,
@@ -537,7 +535,6 @@ def check(ctx):
             oks = []
             if cb is not None:
                 ctx.use(cb)
-                ups = [render(x) for x in mir.walk(e) if False]
                 for dd in cb.defs.get(0, []):
                     if dd[0] == "stmt":
                         oks.append(render(cb.rvalue_expr(dd[3])))
